@@ -81,3 +81,31 @@ func VH_C11_CSCodeDirectory() {
 		vhReach("rejected") // vh:require rejected
 	}
 }
+
+// H11.csblob-c: the requirements blob of an embedded code signature (shown by
+// verify, read again when re-signing): Requirements() and Format() on
+// arbitrary bytes return an error or text; no panic on an item shorter than
+// its own header, no unbounded recursion.
+func VH_C11_CSRequirements() {
+	lens := []int{0, 12, 20, 23, 24, 28, 32}
+	n := lens[vhConcretize(vhInt("lenidx", 0, len(lens)-1), 16)]
+	vhMaxLen(n + 2)
+	b := vhBytes("requirements", n)
+	if n >= 12 {
+		// requirements magic and at most one index entry
+		copy(b, []byte{0xfa, 0xde, 0x0c, 0x01})
+		vhAssume(b[8] == 0 && b[9] == 0 && b[10] == 0 && b[11] < 2)
+	}
+	vhAllocLimit(4<<20 + 16*len(b))
+	vhLoopBound(len(b) + 16)
+	sb := &SigBlob{RawRequirements: b}
+	reqs, err := sb.Requirements()
+	if err != nil {
+		vhReach("rejected") // vh:require rejected
+		return
+	}
+	vhReach("parsed")
+	for _, r := range reqs {
+		r.Format()
+	}
+}
